@@ -120,6 +120,37 @@ def run(ctx):
                 got_fail = not io[-1].endswith("fails=0")
                 if want_fail != got_fail:
                     bad = ("publish-mock-count", "publish mock: %d expectations, %d counted calls: final `%s`" % (len(w), idx, io[-1]))
+        elif kind == "rs":
+            w, n = m[1], m[2]
+            want_fail = n != len(w)                 # too few calls and too many calls are both deviations
+            got_fail = not io[-1].endswith("fails=0")
+            if want_fail != got_fail:
+                bad = ("readslices-mock-count", "ReadSlices mock: %d expectations, %d calls: final `%s`" % (len(w), n, io[-1]))
+        elif kind == "sub" and not any(c[1] == "none" for c in m[2]):
+            w, seq = m[1], m[2]
+            idx, fails = 0, 0
+            for (q, fs), line in zip(seq, io):
+                if q == "closed":
+                    want_ret = "canceled"
+                else:
+                    if idx >= len(w):
+                        fails += 1
+                        want_ret = "nil"
+                    else:
+                        exp = set() if w[idx][0] == "none" else set(w[idx][0].split(","))
+                        if set(fs.split(",")) != exp:
+                            fails += 1
+                        want_ret = w[idx][1]
+                    idx += 1
+                if line.split()[1:2] != [want_ret] or (line.endswith("fails=0") != (fails == 0)):
+                    bad = ("subscribe-mock", "subscribe mock: call with filters %s (quit %s) against %s gave `%s`, want return %s and %s"
+                           % (fs, q, w[idx - 1] if 0 < idx <= len(w) else "nothing", line, want_ret, "no failure" if fails == 0 else "a failure"))
+                    break
+            if not bad:
+                want_fail = fails > 0 or idx != len(w)
+                got_fail = not io[-1].endswith("fails=0")
+                if want_fail != got_fail:
+                    bad = ("subscribe-mock-count", "subscribe mock: %d expectations, %d counted calls: final `%s`" % (len(w), idx, io[-1]))
         elif kind == "ex":
             ef, seq = m[1], m[2]
             if ef == "nil" and not (io and io[0] == "exstub panic"):
